@@ -200,12 +200,21 @@ def b_getattr(ex, state, args, kwargs, sv):
     raise Unsupported("getattr with symbolic name")
 
 
+@builtin("setattr")
+def b_setattr(ex, state, args, kwargs, sv):
+    o, n, v = args
+    if isinstance(n, VStr) and z3.is_string_value(n.t):
+        ex.setattr_(state, o, n.t.as_string(), v)
+        return VNone
+    raise Unsupported("setattr with symbolic name")
+
+
 @builtin("id")
 def b_id(ex, state, args, kwargs, sv):
     return VInt(z3.Int(fresh_name("id")))
 
 
-@builtin("print", "repr", "traceback.format_exc", "traceback.print_exc", "pprint", "hltype", "hlval", "hlid",
+@builtin("print", "repr", "traceback.format_exc", "traceback.print_exc", "pprint", "pprint.pformat", "pformat", "hltype", "hlval", "hlid",
          "autobahn.util.hltype", "autobahn.util.hlval", "autobahn.util.hlid", "autobahn.util.hl", "hl",
          "autobahn.util.hluserid", "hluserid", "autobahn.util._maybe_tls_reason", "autobahn.util._is_tls_error")
 def b_ignored_str(ex, state, args, kwargs, sv):
